@@ -1,12 +1,14 @@
 //! Structure harness (C06, C07).
 //!
 //! Line protocol, first argument selects the mode:
-//!   case      one JSON object per line: {"proj","root","gitignore","nodes":[[relpath,kind],..]}
+//!   case      one JSON object per line: {"proj","root","gitignore","nodes":[[relpath,kind],..]}, optional "extra_exclude"
+//!             (command-line -x patterns) and "roots" (several requested scan roots; they pass through resolve_scan_paths)
 //!             -> the library pipeline of `check` (config loader, CheckContext::from_config, scanner,
 //!             StructureChecker::{check, check_siblings, explain}) on the real tree under `proj`,
 //!             plus the ORACLE COLUMNS of every node computed with the real compiled matchers.
 //!   checkmap  {"toml": "...", "stats": [[path, files, dirs, depth], ..]} -> StructureChecker::check on
 //!             an arbitrary DirStats map (+ the limit-scope column of every key, + explain)
+//!   roots     {"roots": [..]} -> resolve_scan_paths on the request + the marked normalised key of every root
 //!   pathfns   codepoints of a name -> std Path::extension / file_stem
 //!   warnpoint "<limit> <bits>" -> ((limit as f64) * f64::from_bits(bits)).ceil() as usize
 //! Every call runs under catch_unwind.
@@ -18,7 +20,7 @@ use sloc_guard::config::{
     Config, ConfigLoader, FileConfigLoader, SiblingRule, verif_validate_config_semantics,
 };
 use sloc_guard::scanner::StructureScanConfig;
-use sloc_guard::verif_hooks::normalize_for_matching;
+use sloc_guard::verif_hooks::{normalize_for_matching, resolve_scan_paths};
 use std::collections::HashMap;
 use std::io::{self, BufRead, Write};
 use std::path::{Path, PathBuf};
@@ -177,14 +179,25 @@ fn run_case(j: &Value) -> Value {
     if let Err(e) = verif_validate_config_semantics(&config) {
         return json!({"cfg_err": e.to_string(), "stage": "semantics"});
     }
-    let exclude = config.scanner.exclude.clone();
+    // runner.rs: scanner.exclude of the configuration followed by the command line's -x/--exclude patterns
+    let mut exclude = config.scanner.exclude.clone();
+    if let Some(extra) = j["extra_exclude"].as_array() {
+        exclude.extend(extra.iter().filter_map(|v| v.as_str().map(String::from)));
+    }
     let use_gitignore = config.scanner.gitignore && gitignore;
     let ctx = match CheckContext::from_config(&config, config.content.warn_threshold, exclude, use_gitignore) {
         Ok(c) => c,
         Err(e) => return json!({"cfg_err": e.to_string(), "stage": "context"}),
     };
     let sc = ctx.structure_scan_config.as_ref();
-    let scan = match ctx.scanner.scan_all_with_structure(&[PathBuf::from(root)], sc) {
+    // check_scan.rs: the requested roots go through resolve_scan_paths (outermost roots only, the first of equal
+    // spellings), then through ONE scan_all_with_structure
+    let requested: Vec<PathBuf> = j["roots"].as_array().map_or_else(
+        || vec![PathBuf::from(root)],
+        |a| a.iter().filter_map(|v| v.as_str().map(PathBuf::from)).collect(),
+    );
+    let walked = resolve_scan_paths(&requested, &[]);
+    let scan = match ctx.scanner.scan_all_with_structure(&walked, sc) {
         Ok(s) => s,
         Err(e) => return json!({"fatal": e.to_string()}),
     };
@@ -228,6 +241,7 @@ fn run_case(j: &Value) -> Value {
         "stats": stats, "files": files, "placement": placement, "limits": limits, "siblings": sib,
         "oracle": oracle, "explain": explain,
         "rp": plc_scope(sc, rparent), "rl": lim_scope(&config, rparent),
+        "walked": walked.iter().map(|p| p.to_string_lossy().to_string()).collect::<Vec<_>>(),
     })
 }
 
@@ -257,6 +271,43 @@ fn run_checkmap(j: &Value) -> Value {
     json!({"enabled": checker.is_enabled(), "limits": limits, "scopes": scopes, "explain": explain})
 }
 
+/// roots mode: {"roots": [..]} -> the walked roots (indices into the request) as resolve_scan_paths selects them,
+/// and the MARKED NORMALISED KEY of every requested root (marker "." = relative to the current directory,
+/// "/" = absolute, then the components of normalize_for_matching) for the model
+fn run_roots(j: &Value) -> Value {
+    let roots: Vec<PathBuf> = j["roots"]
+        .as_array()
+        .map_or_else(Vec::new, |a| a.iter().filter_map(|v| v.as_str().map(PathBuf::from)).collect());
+    let walked = resolve_scan_paths(&roots, &[]);
+    // the result is a subsequence of the request: recover the indices greedily
+    let mut idx = Vec::new();
+    let mut from = 0usize;
+    let mut subsequence = true;
+    for w in &walked {
+        match roots[from..].iter().position(|r| r == w) {
+            Some(k) => {
+                idx.push(from + k);
+                from += k + 1;
+            }
+            None => subsequence = false,
+        }
+    }
+    let keys: Vec<Vec<String>> = roots
+        .iter()
+        .map(|r| {
+            let n = normalize_for_matching(r);
+            let mut k = vec![if n.is_absolute() { "/".to_string() } else { ".".to_string() }];
+            k.extend(n.components().filter_map(|c| match c {
+                std::path::Component::RootDir | std::path::Component::Prefix(_) => None,
+                other => Some(other.as_os_str().to_string_lossy().to_string()),
+            }));
+            k
+        })
+        .collect();
+    json!({"walked": idx, "subsequence": subsequence, "keys": keys,
+           "walked_paths": walked.iter().map(|p| p.to_string_lossy().to_string()).collect::<Vec<_>>()})
+}
+
 fn main() {
     quiet_panics();
     let mode = std::env::args().nth(1).unwrap_or_default();
@@ -266,9 +317,13 @@ fn main() {
     for line in stdin.lock().lines() {
         let Ok(line) = line else { break };
         let res = std::panic::catch_unwind(|| match mode.as_str() {
-            "case" | "checkmap" => {
+            "case" | "checkmap" | "roots" => {
                 let j: Value = serde_json::from_str(&line).unwrap_or(Value::Null);
-                let r = if mode == "case" { run_case(&j) } else { run_checkmap(&j) };
+                let r = match mode.as_str() {
+                    "case" => run_case(&j),
+                    "checkmap" => run_checkmap(&j),
+                    _ => run_roots(&j),
+                };
                 r.to_string()
             }
             "pathfns" => {
